@@ -136,7 +136,7 @@ for sh, K, V in (("u8", "u8", "u8"), ("id", "Key", "u8")):
     add("c01_retain_" + sh, "c01::h_retain::<%s, %s, {N}>()" % (K, V), ["C01", "C05"], Q3, T3, unwind="N+2",
         fn="Map::retain", shape=S)
     add("c01_clear_" + sh, "c01::h_clear::<%s, %s, {N}>()" % (K, V), ["C01", "C05"], Q3, T4, fn="Map::clear", shape=S)
-    add("c01_drain_" + sh, "c01::h_drain_view::<%s, %s, {N}>()" % (K, V), ["C01", "C10"], Q3, T3, fn="Map::drain", shape=S)
+    add("c01_drain_" + sh, "c01::h_drain_view::<%s, %s, {N}>()" % (K, V), ["C01", "C10"], Q3, T3, profile="both", fn="Map::drain", shape=S)
 
 # ------------------------------------------------------------------ C02 / C04 (ledger + unwind monitor)
 for w, P, nm in ((False, ["C02"], "own"), (True, ["C04"], "unw")):
@@ -149,7 +149,7 @@ for w, P, nm in ((False, ["C02"], "own"), (True, ["C04"], "unw")):
     add("%s_lookup" % nm, "life::h_lookup::<{N}>(%s)" % ws, P, Q3, T3, fn="Map::get/get_mut/get_key_value/contains_key", shape="S_tok")
     add("%s_retain" % nm, "life::h_retain::<{N}>(%s)" % ws, P, Q3, T3, fn="Map::retain", shape="S_tok")
     add("%s_clear" % nm, "life::h_clear::<{N}>(%s)" % ws, P, Q3, T3, fn="Map::clear", shape="S_tok")
-    add("%s_drain" % nm, "life::h_drain::<{N}>(%s)" % ws, P + ["C10"], Q3, T3, fn="Map::drain, Drain::next, Drain::drop", shape="S_tok")
+    add("%s_drain" % nm, "life::h_drain::<{N}>(%s)" % ws, P + ["C10"], Q3, T3, profile="both", fn="Map::drain, Drain::next, Drain::drop", shape="S_tok")
     add("%s_clone" % nm, "life::h_clone::<{N}>(%s)" % ws, P + ["C15"], Q3, T3, fn="Clone::clone for Map", shape="S_tok")
     add("%s_eq" % nm, "life::h_eq::<{N}, {M}>(%s)" % ws, P, NM([(0, 0), (1, 1), (2, 1), (2, 2)]), NM([(1, 2), (2, 2), (3, 2), (3, 3)]),
         unwind="max(N,M)+2", fn="PartialEq::eq for Map", shape="S_tok")
@@ -204,10 +204,12 @@ for sh, T in (("u8", "u8"), ("id", "Key")):
             Q3 if i < 2 else N_(2), T4 if i < 2 else N_(3), fn="Set::" + op.replace("_borrowed", ""), shape=S)
     add("c07_retain_" + sh, "c07::h_set_retain::<%s, {N}>()" % T, ["C07", "C05"], Q3, T3, fn="Set::retain", shape=S)
     add("c07_clear_" + sh, "c07::h_set_clear_drain::<%s, {N}>(false)" % T, ["C07"], Q3, T3, fn="Set::clear", shape=S)
-    add("c07_drain_" + sh, "c07::h_set_clear_drain::<%s, {N}>(true)" % T, ["C07", "C10"], Q3, T3, fn="Set::drain, SetDrain::next/len", shape=S)
-    add("c07_extend_" + sh, "c07::h_set_extend::<%s, {N}, {L}>(false)" % T, ["C07", "C16"], [{"N": 1, "L": 2}, {"N": 2, "L": 2}], [{"N": 2, "L": 3}, {"N": 3, "L": 3}],
+    add("c07_drain_" + sh, "c07::h_set_clear_drain::<%s, {N}>(true)" % T, ["C07", "C10"], Q3, T3, profile="both", fn="Set::drain, SetDrain::next/len", shape=S)
+    add("c07_extend_lazy_" + sh, "c07::h_set_extend::<%s, {N}, {L}>(2)" % T, ["C07", "C16"], [{"N": 2, "L": 2}], [{"N": 2, "L": 3}, {"N": 3, "L": 3}],
+        unwind="max(N,L)+2", fn="Extend<T>::extend for Set from an iterator without a size hint", shape=S)
+    add("c07_extend_" + sh, "c07::h_set_extend::<%s, {N}, {L}>(0)" % T, ["C07", "C16"], [{"N": 1, "L": 2}, {"N": 2, "L": 2}], [{"N": 2, "L": 3}, {"N": 3, "L": 3}],
         unwind="max(N,L)+2", fn="Extend<T>::extend for Set", shape=S)
-    add("c07_extend_ref_" + sh, "c07::h_set_extend::<%s, {N}, {L}>(true)" % T, ["C07", "C16"], [{"N": 2, "L": 2}], [{"N": 2, "L": 3}, {"N": 3, "L": 3}],
+    add("c07_extend_ref_" + sh, "c07::h_set_extend::<%s, {N}, {L}>(1)" % T, ["C07", "C16"], [{"N": 2, "L": 2}], [{"N": 2, "L": 3}, {"N": 3, "L": 3}],
         unwind="max(N,L)+2", fn="Extend<&T>::extend for Set", shape=S)
 
 # ------------------------------------------------------------------ C09 borrowing iterators, C05 observations
@@ -229,7 +231,7 @@ for sh, K, V in (("u8", "u8", "u8"), ("id", "Key", "u8")):
     for i, op in enumerate(("into_iter", "into_keys", "into_values")):
         add("c10_%s_%s" % (op, sh), "c10::h_into_iter::<%s, %s, {N}>(%d)" % (K, V, i), ["C10"] + (["C12"] if sh == "id" and i < 2 else []),
             Q3 if sh == "u8" else N_(2), T3 if sh == "u8" else N_(3), unwind="N+4", fn="Map::%s and its iterator" % op, shape=S)
-    add("c10_drain_" + sh, "c10::h_drain::<%s, %s, {N}>()" % (K, V), ["C10", "C01"], Q3 if sh == "u8" else N_(2), T3 if sh == "u8" else N_(3), unwind="N+3", fn="Map::drain, Drain::next/len/size_hint/drop", shape=S)
+    add("c10_drain_" + sh, "c10::h_drain::<%s, %s, {N}>()" % (K, V), ["C10", "C01"], Q3 if sh == "u8" else N_(2), T3 if sh == "u8" else N_(3), unwind="N+3", profile="both", fn="Map::drain, Drain::next/len/size_hint/drop", shape=S)
 add("c10_into_iter_count_u8", "c10::h_into_iter_count::<u8, u8, {N}>()", ["C10"], Q3, T3, fn="IntoIter::count", shape="S_u8")
 add("c10_set_into_iter_u8", "c10::h_set_into_iter::<u8, {N}>()", ["C10"], Q3, T3, unwind="N+4", fn="Set::into_iter, SetIntoIter::*", shape="S_u8")
 add("c10_set_into_iter_id", "c10::h_set_into_iter::<Key, {N}>()", ["C10", "C12"], N_(2), N_(3), unwind="N+4", fn="Set::into_iter, SetIntoIter::*", shape="S_id")
@@ -333,8 +335,8 @@ def NL(n, lens):
     return [{"N": n, "A": l} for l in lens]
 
 
-add("c19_display_map", "c19::h_display_map::<{N}>({A})", ["C19", "C06"], NL(2, (0, 1, 2)), NL(3, (0, 1, 2, 3)) + NL(4, (4,)), unwind="max(N,4)+2", fn="Display for Map", shape="S_fmt", timeout="30m")
-add("c19_display_set", "c19::h_display_set::<{N}>({A})", ["C19", "C06"], NL(2, (0, 1, 2)), NL(3, (0, 1, 2, 3)), unwind="max(N,4)+2", fn="Display for Set", shape="S_fmt", timeout="30m")
+add("c19_display_map", "c19::h_display_map::<{N}>({A})", ["C19", "C06"], NL(2, (0, 1, 2)) + NL(3, (3,)), NL(3, (0, 1, 2, 3)) + NL(4, (4,)), unwind="max(N,4)+2", fn="Display for Map", shape="S_fmt", timeout="30m")
+add("c19_display_set", "c19::h_display_set::<{N}>({A})", ["C19", "C06"], NL(2, (0, 1, 2)) + NL(3, (3,)), NL(3, (0, 1, 2, 3)) + NL(4, (4,)), unwind="max(N,4)+2", fn="Display for Set", shape="S_fmt", timeout="30m")
 add("c19_debug_map", "c19::h_debug_map::<{N}>(false, {A})", ["C19", "C06"], NL(2, (0, 1, 2)), NL(3, (0, 1, 2, 3)), unwind="max(N,6)+2", fn="Debug for Map ({:?})", shape="S_fmt", timeout="30m")
 add("c19_debug_map_alt", "c19::h_debug_map::<{N}>(true, {A})", ["C19"], NL(1, (0,)), NL(1, (0, 1)), unwind="max(N,6)+2", fn="Debug for Map ({:#?})", shape="S_fmt", timeout="30m")
 add("c19_debug_set", "c19::h_debug_set::<{N}>(false, {A})", ["C19", "C06"], NL(2, (0, 1, 2)), NL(3, (0, 1, 2, 3)), unwind="max(N,6)+2", fn="Debug for Set ({:?})", shape="S_fmt", timeout="30m")
@@ -378,6 +380,26 @@ add("kc_remove_via_contract", "c01::h_remove::<u8, u8, {N}>(0)", ["C01"], N_(1, 
 add("kc_remove_entry_via_contract", "c01::h_remove::<u8, u8, {N}>(1)", ["C01"], N_(2), N_(1, 2, 3), contracts=True, backend="kani-contract (caller, stub_verified)",
     attrs=["#[kani::stub_verified(Map::<u8, u8, {N}>::remove_index_read)]"],
     fn="Map::remove_entry verified against the contract of remove_index_read", shape="S_u8")
+
+add("c01_lookup_selfref_nr", "c01::h_lookup_selfref::<{N}>()", ["C01"], N_(1, 2), N_(1, 2, 3), unwind="N+3", fn="Map::contains_key/get/get_key_value with a key reference taken from the map (non-reflexive ==)", shape="S_nr")
+add("c07_lookup_selfref_nr", "c01::h_set_selfref::<{N}>()", ["C07"], N_(1, 2), N_(1, 2, 3), unwind="N+3", fn="Set::contains/get with a reference taken from the set (non-reflexive ==)", shape="S_nr")
+
+# ------------------------------------------------------------------ additions after the first round of seeded changes
+for i, op in enumerate(("iter", "keys", "values", "ref_into_iter")):
+    add("c09_%s_zst" % op, "c09::h_iter::<(), (), {N}>(%d)" % i, ["C09"], N_(1), N_(1, 2), unwind="N+4", fn="borrowing iterators over zero-sized entries", shape="S_zst")
+for i, op in enumerate(("iter_mut", "values_mut")):
+    add("c09_%s_zstv" % op, "c09::h_iter_mut::<u8, (), {N}>(%d)" % i, ["C09"], N_(2), N_(2, 3), unwind="N+4", fn="Map::%s with a zero-sized value type" % op, shape="u8/()")
+    add("c09_%s_zst" % op, "c09::h_iter_mut::<(), (), {N}>(%d)" % i, ["C09"], N_(1), N_(1, 2), unwind="N+4", fn="Map::%s over zero-sized entries" % op, shape="S_zst")
+add("c09_set_iter_zst", "c09::h_set_iter::<(), {N}>()", ["C09"], N_(1), N_(1, 2), unwind="N+4", fn="Set::iter over a zero-sized element", shape="S_zst")
+add("c10_into_iter_zst", "c10::h_into_iter::<(), (), {N}>(0)", ["C10"], N_(1), N_(1, 2), unwind="N+4", fn="Map::into_iter over zero-sized entries", shape="S_zst")
+add("c15_clone_count_nodrop", "c14::h_clone_count_nodrop::<{N}>({A})", ["C15"], NL(2, (0, 1, 2)), NL(3, (0, 2, 3)), fn="Clone::clone for Map: clone calls counted for a type without a destructor", shape="Cc (Clone with effect, no Drop)")
+add("c15_clone_count_zst", "c14::h_clone_count_zst::<{N}>({A})", ["C15", "C02"], NL(2, (0, 1, 2)), NL(3, (0, 2, 3)), fn="Clone::clone for Map of zero-sized elements: clones and drops counted", shape="Z (ZST with Clone/Drop effects)")
+for sh, K, V in (("u8", "u8", "u8"), ("id", "Key", "u8")):
+    add("c18_insert_unchecked_" + sh, "c01::h_insert::<%s, %s, {N}>(3)" % (K, V), ["C18", "C12"], N_(1, 2), N_(1, 2, 3, 4), profile="both",
+        fn="Map::insert_unchecked under its documented precondition: the contract of insert", shape="S_" + sh)
+add("kc_vacant_insert_full_frame", "core_contracts::h_vacant_insert_full_frame::<u8, u8, {N}>()", ["C03", "C05", "C11"], N_(0, 1, 2), T3, profile="both",
+    expect=PANIC(*FULL_PANIC), contracts=True, kind="contract", backend="kani-contract", attrs=["#[kani::proof_for_contract(crate::entry::VacantEntry::<u8, u8, {N}>::insert)]"],
+    fn="VacantEntry::insert under requires(full && key absent) modifies() - nothing is written before the panic", shape="S_u8")
 
 
 def units_for(prop):
